@@ -47,6 +47,17 @@ class GatedLinear(torch.nn.Linear):
         return torch.nn.functional.linear(x, self.weight, self.bias) * torch.sigmoid(self.gate(x))
 
 
+class PrunedLinear(torch.nn.Linear):
+    """a leaf Linear with a fixed (frozen) pruning mask besides weight and bias: not all of its parameters require grad"""
+
+    def __init__(self, i, o):
+        super().__init__(i, o)
+        self.mask = torch.nn.Parameter((torch.rand(o, i) > 0.3).to(torch.get_default_dtype()), requires_grad=False)
+
+    def forward(self, x):
+        return torch.nn.functional.linear(x, self.weight * self.mask, self.bias)
+
+
 class Swap(torch.nn.Module):
     """sequence-first <-> batch-first: the layer before it receives a transposed (non-contiguous) output gradient"""
 
@@ -95,6 +106,8 @@ def gen_model(rng, dt):
     mods['partly'] = nn.Linear(5, 4)
     if rng.random() < 0.4:
         mods['eqlr'] = Linear(4, 4)        # unsupported module named like a supported one
+    if rng.random() < 0.4:
+        mods['pruned'] = PrunedLinear(4, 4)  # partially frozen through an extra parameter: outside the write set
     if rng.random() < 0.4:
         mods['gated'] = GatedLinear(4, 4)  # supported type, but not a leaf: its own weight/bias are outside the write set
     mods['head'] = nn.Linear(4, 3, bias=rng.random() < 0.7)
